@@ -130,6 +130,23 @@ func coverOfLoop(f *Fn, fs *ast.ForStmt) *loopCover {
 	}
 	lc := &loopCover{fs: fs}
 	// shift: the body indexes the list with counter+shift (the same shift everywhere): for n := len(x); n > 0; n-- { x[n-1] }
+	usesIndex := func(list string) bool {
+		used := false
+		ast.Inspect(fs.Body, func(n ast.Node) bool {
+			ix, ok := n.(*ast.IndexExpr)
+			if !ok || exprString(unalias(f, ix.X)) != list {
+				return true
+			}
+			ast.Inspect(ix.Index, func(m ast.Node) bool {
+				if id, ok := m.(*ast.Ident); ok && isI(id) {
+					used = true
+				}
+				return true
+			})
+			return true
+		})
+		return used
+	}
 	shiftOf := func(list string) int64 {
 		var shift int64
 		first, mixed := true, false
@@ -164,6 +181,9 @@ func coverOfLoop(f *Fn, fs *ast.ForStmt) *loopCover {
 			return nil
 		}
 		lc.list = list
+		if !usesIndex(list) {
+			return nil // the counter only counts the rounds (each round takes the next element by other means)
+		}
 		var lastRel int64 // last visited index = len + lastRel
 		switch op {
 		case token.LSS, token.NEQ:
@@ -191,6 +211,9 @@ func coverOfLoop(f *Fn, fs *ast.ForStmt) *loopCover {
 		return nil
 	}
 	lc.list = list
+	if !usesIndex(list) {
+		return nil // the counter only counts the rounds (each round takes the next element by other means)
+	}
 	var firstIdx int64
 	switch op {
 	case token.GEQ:
